@@ -163,7 +163,11 @@ func cmdCheck(args []string) {
 	specErrs := 0
 	for _, u := range units {
 		u.Ctx.prepare()
-		all = append(all, u.Obls...)
+		for _, o := range u.Obls {
+			if servesProperty(o, id) {
+				all = append(all, o)
+			}
+		}
 		for _, e := range u.Errors {
 			fmt.Printf("govc: contract error in %s: %s\n", u.Name, e)
 			specErrs++
@@ -234,6 +238,9 @@ func cmdCheck(args []string) {
 			fe.Status = "missing"
 		}
 		for _, o := range u.Obls {
+			if !servesProperty(o, id) {
+				continue
+			}
 			if kf := isKnown(o.Name); kf != nil {
 				knownCount++
 				if oblOK(o) {
@@ -345,6 +352,21 @@ func cmdCheck(args []string) {
 		os.Exit(1)
 	}
 	os.Exit(0)
+}
+
+// servesProperty: a clause tagged with property ids ([C26]) yields obligations only for those properties; untagged
+// clauses serve every property of their function.
+func servesProperty(o *Obligation, id string) bool {
+	tagged := false
+	for t := range o.Tags {
+		if len(t) >= 3 && t[0] == 'C' && t[1] >= '0' && t[1] <= '9' {
+			tagged = true
+			if t == id {
+				return true
+			}
+		}
+	}
+	return !tagged
 }
 
 func firstLines(s string, n int) string {
